@@ -243,7 +243,8 @@ def sink_uses(f, b):
         return x
     def is_sink_expr(x):
         y = peel(x)
-        return isinstance(y, dict) and y.get('k') in ('Var', 'Upvar') and is_sink_ty(y.get('ty'))
+        # a sink held in a field of a wrapper (`self.0`) is a sink value like a variable: the same uses are admitted
+        return isinstance(y, dict) and y.get('k') in ('Var', 'Upvar', 'Field') and is_sink_ty(y.get('ty'))
     def walk(x, parent_ok=False):
         if isinstance(x, dict):
             k = x.get('k')
@@ -264,7 +265,19 @@ def sink_uses(f, b):
                     if is_sink_expr(u): n[0] += 1
                     else: walk(u)
                 return
-            if k in ('Var', 'Upvar') and is_sink_ty(x.get('ty')):
+            if k == 'Adt':
+                # a crate-local wrapper built around the sink (`NodeWriter(sink)`): admitted when the field is declared as a
+                # sink; what the wrapper's methods do with that field is decided in their own bodies by the Field case above
+                a = f.adt(norm_ty(x.get('adt') or '')) if not x.get('is_enum') else None
+                decl = {fd['name']: norm_ty(fd['ty']) for fd in a['variants'][0]['fields']} if a and a.get('variants') else {}
+                for fd in x.get('fields', []):
+                    if is_sink_expr(fd.get('e')):
+                        n[0] += 1
+                        if decl.get(fd.get('name')) != '&mut dyn AmlSink': bad.append((x.get('sp'), 'stored in %s.%s' % (x.get('adt'), fd.get('name'))))
+                    else: walk(fd.get('e'))
+                if x.get('base') is not None: walk(x.get('base'))
+                return
+            if k in ('Var', 'Upvar', 'Field') and is_sink_ty(x.get('ty')):
                 n[0] += 1; bad.append((x.get('sp'), 'bare use')); return
             for key, v in x.items():
                 if key in ('pat',): continue
